@@ -105,21 +105,31 @@ func Harness_C18_Compromise() {
 		got := r.AminoAcids[0].Codons[i].Weight
 		vAssert(r.AminoAcids[0].Codons[i].Triplet == a.AminoAcids[0].Codons[i].Triplet, "triplets-kept")
 		vAssert(vEqInt(got, rs.AminoAcids[0].Codons[i].Weight), "symmetric-in-the-two-tables")
-		// exact shares scaled to 10000 as rationals: s = 10000*w/t
-		// mean m = (s1+s2)/2 ; allowed: zero, or within [m-2, m]  (two truncations + the final one)
+		// exact shares scaled to 10000: s = floor(10000*w/t); the float computation in the code may
+		// differ by one unit from the exact floor except where the share is exactly 0 or 10000
+		fs1, fs2 := 10000*w1[i]/t1, 10000*w2[i]/t2
+		ex1 := w1[i] == 0 || w1[i] == t1
+		ex2 := w2[i] == 0 || w2[i] == t2
+		cutW := int(10000 * cut) // truncation, over the reals
+		slack := func(exact bool) int {
+			if exact {
+				return 0
+			}
+			return 1
+		}
+		// zero is required when a share is below the cut-off even allowing for the rounding unit,
+		// the mean is required when both shares reach the cut-off even allowing for it
+		mustZero := vOr(vLtInt(fs1+slack(ex1), cutW), vLtInt(fs2+slack(ex2), cutW))
+		mustMean := vAnd(vLeInt(cutW, fs1-slack(ex1)), vLeInt(cutW, fs2-slack(ex2)))
 		n1, n2 := 10000*w1[i]*t2, 10000*w2[i]*t1 // s1 = n1/(t1*t2), s2 = n2/(t1*t2)
 		den := 2 * t1 * t2
 		lo := (n1+n2)/den - 2
 		hiV := (n1 + n2 + den - 1) / den
 		inRange := vAnd(vLeInt(lo, got), vLeInt(got, hiV))
+		vAssert(vImplies(mustZero, vEqInt(got, 0)), "zero-when-a-share-is-below-the-cutoff")
+		vAssert(vImplies(mustMean, inRange), "mean-when-both-shares-reach-the-cutoff")
 		vAssert(vOr(vEqInt(got, 0), inRange), "weight-is-zero-or-mean-of-shares")
-		// cut-off: share below the cut-off by more than one unit => zero; above by more than one unit => mean
-		s1f, s2f := float64(10000*w1[i])/float64(t1), float64(10000*w2[i])/float64(t2)
-		c := cut * 10000
-		below := vOr(s1f < c-1, s2f < c-1)
-		above := vAnd(s1f > c+1, s2f > c+1)
-		vAssert(vImplies(below, vEqInt(got, 0)), "zero-when-a-share-is-below-the-cutoff")
-		vAssert(vImplies(above, inRange), "mean-when-both-shares-are-above-the-cutoff")
+		below, above := mustZero, mustMean
 		vCover("C18 a codon removed by the cut-off", vAnd(below, w1[i] > 0 && w2[i] > 0))
 		vCover("C18 a codon kept with a positive cut-off", vAnd(above, cut > 0))
 	}
